@@ -93,6 +93,7 @@ Qed.
 Lemma transfer_e_all_iter dest t t' : ekind_of dest = KIter → all_iter t → transfer_e dest t = Ok t' → all_iter t'.
 Proof.
   intros Hk Hi H. unfold transfer_e in H. rewrite Hk in H. unfold transfer_generic in H.
+  destruct (engine_eqb (engine_of t) dest); [injection H as <-; exact Hi|].
   set (t1 := default t (xfer_simplify dest t)) in *.
   assert (H1 : all_iter t1).
   { unfold t1. destruct (xfer_simplify dest t) as [x|] eqn:E; cbn [default from_option id]; auto.
